@@ -141,7 +141,7 @@ def render_agp(scaffolds, header=()):
 # ---------------------------------------------------------------------------
 
 
-def gen_map(rng, scaffolds, bpt, edits=None, tagging=True):
+def gen_map(rng, scaffolds, bpt, edits=None, tagging=True, rich_tags=False):
     """PretextView-model map over `scaffolds`.  Returns
     {"bpt", "groups": [{"pieces": [[name, start, end, strand, [tags]]], ...}]}"""
     pieces_by_sc = []
@@ -233,13 +233,26 @@ def gen_map(rng, scaffolds, bpt, edits=None, tagging=True):
                     p[4].append("Contaminant")
             elif rng.random() < 0.05:
                 rng.choice(g["pieces"])[4].append("FalseDuplicate")
-        if rng.random() < 0.12:
+        if rng.random() < 0.3:
             # "Target" mode: the wanted scaffolds are tagged, everything after the
             # first Target tag without one is treated as a contaminant
             for g in groups:
                 if rng.random() < 0.7:
                     for p in g["pieces"]:
                         p[4].append("Target")
+    if rich_tags:
+        # every painted scaffold carries several tags at once (the tables of the
+        # DEBUG log and the cut-fragment tags are built from these sets)
+        for g in groups:
+            if any("Painted" in p[4] for p in g["pieces"]):
+                for p in g["pieces"]:
+                    if "Target" not in p[4]:
+                        p[4].append("Target")
+                if "Singleton" not in g["pieces"][0][4]:
+                    g["pieces"][0][4].append("Singleton")
+        if not any("Painted" in p[4] for g in groups for p in g["pieces"]):
+            for p in groups[0]["pieces"]:
+                p[4][:] = ["Painted", "Target", "Singleton"]
     return {"bpt": bpt, "groups": groups}
 
 
@@ -311,7 +324,7 @@ def render_pretext_agp(m, gap=100):
 # ---------------------------------------------------------------------------
 
 
-def gen_workload(rng, fasta_backed=True, tagging=True, haps=None):
+def gen_workload(rng, fasta_backed=True, tagging=True, haps=None, rich_tags=False):
     """{"bpt", "scaffolds", "map", "fasta" (if FASTA-backed), "tpf", "agp", "pretext_agp"} or None"""
     bpt = rng.choice([8.0, 10.0, 16.5, 23.116333, 40.0, 64.25])
     if haps is None:
@@ -325,7 +338,7 @@ def gen_workload(rng, fasta_backed=True, tagging=True, haps=None):
         scaffolds = gen_scaffolds(rng, bpt, fasta_backed=fasta_backed)
     if fasta_backed:
         merge_adjacent_fragments(scaffolds)
-    m = gen_map(rng, scaffolds, bpt, tagging=tagging and not haps)
+    m = gen_map(rng, scaffolds, bpt, tagging=tagging and not haps, rich_tags=rich_tags and not haps)
     if m is None:
         return None
     if haps:
